@@ -35,7 +35,10 @@ def strat(tier):
         'mpb': st.integers(1, 4),
         'extra_outputs': st.booleans(),
         # an earlier run on the SAME sampler object (None | 'same' objective | ('n_sim', k) with a larger budget)
-        'prerun': st.one_of(st.none(), st.none(), st.just('same'), st.tuples(st.just('n_sim'), st.integers(n, 300))),
+        # or with another KIND of objective (a threshold / quantile run first: nothing of it may leak into the judged run)
+        'prerun': st.one_of(st.none(), st.none(), st.just('same'), st.tuples(st.just('n_sim'), st.integers(n, 300)),
+                            st.tuples(st.just('threshold'), st.integers(20, 80)),
+                            st.tuples(st.just('quantile'), st.sampled_from([0.5, 0.25, 1.0]))),
     }))
 
 
@@ -66,6 +69,10 @@ def run_case(case):
         objkw = {'quantile': float(val)}
     else:
         objkw = {'n_sim': int(val)}
+    pre = case.get('prerun')
+    pthr = None
+    if pre is not None and pre != 'same' and pre[0] == 'threshold':
+        pthr = resolve_threshold(desc, pre[1], case['seed'] + 1)
     models.reset()
     m, info = models.build(desc)
     outs = ['rid'] + (info['sums'] + info['extra'] if case['extra_outputs'] else [])
@@ -74,9 +81,17 @@ def run_case(case):
                              max_parallel_batches=case['mpb'])
         # a run in this domain costs milliseconds (threshold >= 5th pilot percentile): 60 s means it never finishes
         with time_limit(60, 'C01:run-does-not-terminate', 'Rejection.sample(%d, %r) with batch_size %d' % (n, objkw, bs)):
-            pre = case.get('prerun')
             if pre is not None:
-                rej.sample(n, bar=False, **(objkw if pre == 'same' else {'n_sim': int(pre[1])}))
+                if pre == 'same':
+                    prekw = objkw
+                elif pre[0] == 'n_sim':
+                    prekw = {'n_sim': int(pre[1])}
+                elif pre[0] == 'quantile':
+                    prekw = {'quantile': float(pre[1])}
+                else:
+                    prekw = {'threshold': pthr} if pthr is not None else {'n_sim': n}
+                labels.append('earlier-run=' + (pre if pre == 'same' else pre[0]))
+                rej.sample(n, bar=False, **prekw)
                 models.reset()        # the oracle judges the second run by what the second run consumed
             res = rej.sample(n, bar=False, **objkw)
     log = list(models.LOG)
